@@ -119,6 +119,27 @@ class FortranExpressionMapper(_PowerParenthesizingMixin, StringifyMapper):
                 self.join_rec(" * ", expr.children, PREC_PRODUCT, *args, **kwargs),
                 enclosing_prec, PREC_PRODUCT)
 
+    def map_power(self, expr, enclosing_prec, *args, **kwargs):
+        # Integral exponents are printed as integers: Fortran does not allow
+        # a negative real to be raised to a real power, (-1.5)**3d0.
+        exponent = expr.exponent
+        if isinstance(exponent, np.generic):
+            exponent = exponent.item()
+        if (isinstance(exponent, (int, float))
+                and not isinstance(exponent, bool)
+                and exponent == int(exponent)):
+            exponent_str = str(int(exponent))
+            if exponent < 0:
+                exponent_str = "(%s)" % exponent_str
+
+            return self.parenthesize_if_needed(
+                    self.format("%s**%s",
+                        self.rec(expr.base, PREC_CALL, *args, **kwargs),
+                        exponent_str),
+                    enclosing_prec, PREC_POWER)
+
+        return super().map_power(expr, enclosing_prec, *args, **kwargs)
+
     def map_comparison(self, expr, enclosing_prec, *args, **kwargs):
         from pymbolic.mapper.stringifier import PREC_COMPARISON
 
